@@ -254,12 +254,27 @@ def harness_dir():
 RUSTFLAGS = "--cfg jomini_verif --cfg unoptimized_build -A warnings"
 
 
+_BUILT = set()      # profiles built from /repo's current tree by this process
+
+
+def ensure_harness(profile):
+    """a stream may ask for a profile the property module did not list in PROFILES: never run a stale binary"""
+    if profile in _BUILT:
+        return True
+    ok, out = build_harness(profile)
+    if not ok:
+        raise RuntimeError("harness build (%s) failed: %s" % (profile, out[-1500:]))
+    return True
+
+
 def build_harness(profile="release"):
     d = harness_dir()
     env = dict(ENV, RUSTFLAGS=RUSTFLAGS, CARGO_TARGET_DIR=os.path.join(CACHE, "target"))
     cmd = ["cargo", "build", "--offline", "-q"] + (["--release"] if profile == "release" else [])
     rc, out, dt = sh(cmd, cwd=d, env=env, timeout=1200)
     binp = os.path.join(CACHE, "target", "release" if profile == "release" else "debug", "jv_harness")
+    if rc == 0 and os.path.exists(binp):
+        _BUILT.add(profile)
     return rc == 0 and os.path.exists(binp), out
 
 
@@ -328,6 +343,7 @@ def run_sharded(binp, cases, timeout=600, abort_tag="ABORT", shards=None):
 
 
 def run_impl(cases, profile="release", timeout=600):
+    ensure_harness(profile)
     return run_sharded(harness_bin(profile), cases, timeout=timeout, abort_tag="ABORT")
 
 
